@@ -396,6 +396,27 @@ theorem fetch_into_stacked_preserves (x : Exclusion) (fg : Bool) (src : Repo) (s
             have : e.key ∈ (streamEntries x src M).map Entry.key := List.mem_map.mpr ⟨e, hse, rfl⟩
             simp [this, hcs]
 
+/-- a repack changes no lookup … -/
+theorem pack_preserves_lookups (s : Stacked) :
+    (∀ k, get (pack s).st.revs k = get s.st.revs k) ∧ (∀ k, get (pack s).st.invs k = get s.st.invs k) ∧
+    (∀ k, get (pack s).st.texts k = get s.st.texts k) ∧ (pack s).fb = s.fb :=
+  ⟨fun k => get_dedupKeys _ k, fun k => get_dedupKeys _ k, fun k => get_dedupKeys _ k, rfl⟩
+
+/-- … and therefore keeps the stacking invariant (pack / autopack of a stacked
+repository: the inventories without a local revision survive) -/
+theorem pack_preserves_stackable (s : Stacked) (hst : stackable s = true) : stackable (pack s) = true := by
+  obtain ⟨hr, hi, ht, hfb⟩ := pack_preserves_lookups s
+  unfold stackable
+  rw [List.all_eq_true]
+  rintro ⟨k, rec⟩ hmem
+  have hold : stackableRev s k rec = true := by
+    unfold stackable at hst
+    exact List.all_eq_true.mp hst (k, rec) (mem_dedupKeys hmem)
+  have hpres : ∀ p, presentRev (pack s) p = presentRev s p := by
+    intro p; unfold presentRev hasRev; rw [hr, hfb]
+  exact stackableRev_mono (fun q i h => by rw [hi]; exact h) (fun q c h => by rw [ht]; exact h)
+    (fun p h => by rw [hpres]; exact h) (fun p _ h => Or.inl (by rw [← hpres]; exact h)) hold
+
 /-- the refusal is sound: a write group that leaves the repository `stackable` is
 never refused by `_check_new_inventories` (any number of new revisions, which
 may be each other's parents) -/
